@@ -40,10 +40,12 @@ class T:
         self.thread = None
         self.at = None          # marker of the line the thread is stopped at
         self.use_obs = None     # (entries, converted) of the tokenizer at the `use` line
+        self.quota = 0          # further line events this thread may pass without handing control back
 
 
 def run(fns, schedule_fn):
-    """fns: callables, one per thread. schedule_fn(step, runnable names, steps per thread, markers per thread) -> name.
+    """fns: callables, one per thread. schedule_fn(step, runnable names, steps per thread) -> name, or (name, n) to let
+    that thread run n lines before the next decision (same schedule as n single decisions, fewer hand-overs).
     Returns (threads, abstract schedule = [(thread index, marker)] in execution order)."""
     ts = [T('t%d' % i, f) for i, f in enumerate(fns)]
     abstract = []
@@ -59,8 +61,11 @@ def run(fns, schedule_fn):
                     except Exception as e:  # a half-built object
                         t.use_obs = ('error', type(e).__name__)
                 t.steps += 1
-                t.yielded.release()
-                t.go.acquire()
+                if t.quota > 0:
+                    t.quota -= 1        # still the scheduler's choice: it granted several lines at once
+                else:
+                    t.yielded.release()
+                    t.go.acquire()
                 if t.at:
                     abstract.append((int(t.name[1:]), t.at))
                     t.at = None
@@ -112,7 +117,11 @@ def run(fns, schedule_fn):
                 raise RuntimeError('deadlock: every remaining thread is blocked')
             continue
         name = schedule_fn(step, [t.name for t in runnable], {t.name: t.steps for t in ts})
+        quota = 1
+        if isinstance(name, tuple):
+            name, quota = name
         t = next((x for x in runnable if x.name == name), runnable[0])
+        t.quota = max(quota, 1) - 1
         t.go.release()
         if not t.yielded.acquire(timeout=0.4):
             running.add(t)      # it waits for a lock held by a suspended thread: let the others run
